@@ -405,6 +405,9 @@ package godi
 //@   requires recv: s != nil && s.rootProvider != nil && s.rootProvider.analyzer != nil && descriptor != nil && call != nil && call.done != nil
 //@   ensures[C02,C03] constructs_exactly_once: ncalls("scope.createInstance") == 1 && callarg("scope.createInstance", 0, 0) == s && callarg("scope.createInstance", 0, 1) == descriptor
 //@        && instance == callret("scope.createInstance", 0, 0) && err == callret("scope.createInstance", 0, 1)
+// C02 'a failed construction yields no instance': construct neither adds to nor removes from the tables of the scope itself (what the
+// scope already holds keeps its identity whatever the outcome)
+//@   ensures[C02,C15] construct_itself_never_writes_a_table: ncalls("scope.instancesMu.Lock") == 0 && ncalls("scope.disposablesMu.Lock") == 0
 //@   ensures[C02,C15] waiters_are_released_whatever_the_outcome: ncalls("scope.release") == 1 && callarg("scope.release", 0, 0) == s && callarg("scope.release", 0, 1) == id && callarg("scope.release", 0, 2) == call
 //@        && callarg("scope.release", 0, 3) == err && calltime("scope.createInstance", 0) < calltime("scope.release", 0)
 //
@@ -526,6 +529,9 @@ package godi
 //
 //@ func sameObject
 //@   pure
+// two outputs count as one object only if they are the identical value of one dynamic type: anything weaker would leave a distinct
+// disposable untracked (C10 'never leaked')
+//@   ensures[C10] same_means_identical: result ==> a == b
 // C10 'every instance ... is closed exactly once ... secondary outputs of multi-output constructors': an object that one invocation
 // returns under two outputs is one instance: it is handed to the disposal tracking (setInstance) once, and cached without tracking after that
 //@ func scope.storeOutput
